@@ -113,6 +113,9 @@ def groupings(ck, tier):
     conds = SEP_CONDS + RELABEL_CONDS
     from gsv import fgsym
     fgsym.run_obligations(ck, "C02", n, excl, with_orders=False, with_relabel=True, sep_na=na, timeout=300)
+    # z3 on the real whole-column wthh code (CrossHair sees lists where the real code sees arrays)
+    from gsv import groupsym
+    groupsym.run_all(ck, n, which=("wthh_sep",))
     res = xh.run_all(path, conds + ["check_eg_twin"], timeout, common.JOBS)
     for t in ("check_eg_twin",):
         if res[t][0] != "counterexample":
@@ -276,6 +279,23 @@ def skipvec_code(ck, na, nb):
             if r == "sat" and confirmed(f, kw, kw_alone, m, na, f"separable {label}") is not False:
                 ck.violation(["separable", label], f"{label}: rows of A change when unrelated rows B are appended: {({k: _conc(v, m).tolist() for k, v in kw.items() if isinstance(v, SymArray)})}",
                              {"kind": "col", "label": label})
+            e_full, e_alone = [g for g, k, w in c1.errors], [g for g, k, w in c2.errors]
+            if e_full or e_alone:
+                # raising for A together with B but not for A alone (or the reverse) is a difference as well
+                r, m = ck.oblige(f"separable (raising) {label} A={na} B={nb}", split + [z3.Or(e_full or [z3.BoolVal(False)]) != z3.Or(e_alone or [z3.BoolVal(False)])], 60)
+                if r == "sat":
+                    outs = []
+                    for k2 in (kw, kw_alone):
+                        try:
+                            f(**{k: _conc(v, m) for k, v in k2.items()})
+                            outs.append(None)
+                        except Exception as e:   # noqa: BLE001
+                            outs.append(f"{type(e).__name__}: {e}"[:100])
+                    if (outs[0] is None) != (outs[1] is None):
+                        ck.violation(["separable", label], f"{label}: raises for A together with unrelated rows B but not for A alone (or the reverse): together={outs[0]} alone={outs[1]} "
+                                     f"{({k: _conc(v, m).tolist() for k, v in kw.items() if isinstance(v, SymArray)})}", {"kind": "col", "label": label})
+                    else:
+                        common.spurious("C02", f"separable (raising) {label}: model does not reproduce ({outs})")
             for a in ids:
                 new = c11.ints(a + "_relabelled", n)
                 iso = [x.t >= 0 for x in kw[a].e] + [x.t >= 0 for x in new.e] + \
@@ -331,6 +351,11 @@ def replay(path):
         rep = replay_sep(text, d["cond"], cex)
         print(rep)
         return 1 if rep is True else 0
+    if d.get("kind") == "groupsym":
+        from gsv import groupsym
+        bad = groupsym.replay(d)
+        print("reproduces:", bad)
+        return 1 if bad else 0
     if d.get("kind") == "fgsym":
         from gsv import fgsym
         if d.get("variant"):
